@@ -1,6 +1,8 @@
 import SSEPyVerif.Driver.Tables
 import SSEPyVerif.Model.PHash
 import SSEPyVerif.Model.Cbc
+import SSEPyVerif.Model.Feistel
+import SSEPyVerif.Driver.BytesD
 namespace SSEPy.Driver
 open SSEPy.Proto
 
@@ -40,6 +42,46 @@ def aesReq (t : Tables) : List String → String
     match parseInt kl, parseInt cl, parseInt ml, parseBytes key, parseBytes ct with
     | some kl, some cl, some ml, some key, some ct =>
       showExcept showBytes (do let s ← AESxCBC.new kl cl ml; s.decrypt (t.get2 "aesdec") key ct)
+    | _, _, _, _, _ => bad
+  | _ => bad
+
+end SSEPy.Driver
+
+namespace SSEPy.Driver
+open SSEPy.Proto
+
+/-- C15 requests (table `hmac:sha1`):
+    `ffx enc|dec ROUNDS KEY V L` ; `ffx round KEY I V L OUTLEN` ;
+    `ffx prp MSGBITS KEYBITS KV KL MV ML` ;
+    `lr new DIGEST HASHLEN MSGLEN KEYLEN` ; `lr call DIGEST HASHLEN MSGLEN KEYLEN KEY MSG` -/
+def ffxReq (t : Tables) : List String → String
+  | [op, rounds, key, v, l] =>
+    match parseNat rounds, parseBytes key, parseBits v l with
+    | some r, some key, some x =>
+      let F := ffxRound (t.get2 "hmac:sha1") 20 key
+      if op == "enc" then showExcept showBits (ffxEncrypt F r x)
+      else if op == "dec" then showExcept showBits (ffxDecrypt F r x)
+      else bad
+    | _, _, _ => bad
+  | ["round", key, i, v, l, ol] =>
+    match parseBytes key, parseNat i, parseBits v l, parseNat ol with
+    | some key, some i, some x, some ol => showExcept showBits (ffxRound (t.get2 "hmac:sha1") 20 key i x ol)
+    | _, _, _, _ => bad
+  | ["prp", mb, kb, kv, kl, mv, ml] =>
+    match parseInt mb, parseInt kb, parseBits kv kl, parseBits mv ml with
+    | some mb, some kb, some k, some m => showExcept showBits (bitwiseFpePrp (t.get2 "hmac:sha1") 20 mb kb k m)
+    | _, _, _, _ => bad
+  | _ => bad
+
+def lrReq (t : Tables) : List String → String
+  | ["new", dg, hl, ml, kl] =>
+    match parseNat hl, parseInt ml, parseInt kl with
+    | some hl, some ml, some kl => showExcept (fun _ => "-") (hmacLubyRackoffNew (t.get2 ("hmac:" ++ dg)) hl ml kl)
+    | _, _, _ => bad
+  | ["call", dg, hl, ml, kl, key, msg] =>
+    match parseNat hl, parseInt ml, parseInt kl, parseBytes key, parseBytes msg with
+    | some hl, some ml, some kl, some key, some msg =>
+      showExcept showBytes (do let p ← hmacLubyRackoffNew (t.get2 ("hmac:" ++ dg)) hl ml kl; p.call key msg)
     | _, _, _, _, _ => bad
   | _ => bad
 
